@@ -45,12 +45,17 @@ def body(c):
         "invalid UTF-8), insertion from per-format keyword dictionaries "
         "(out-of-range dimensions, unknown keywords, duplicate headers), "
         "splice of two seeds, repetition of a keyword / header line with a "
-        "changed numeric argument.  Each input is one event validated by "
+        "changed numeric argument, YAML anchors / aliases (cycles, shared "
+        "subtrees, deep nesting), tokens of boundary length 2^k-1, 2^k, 2^k+1 "
+        "(k = 4..12: numbers with many digits / leading zeros, words, "
+        "[keywords], comment and header lines, YAML keys and scalars), "
+        "frequency entries made equal to their neighbour (same text or an "
+        "equivalent spelling), swapped, zero or negative.  Each input is one event validated by "
         "LoadContractTrace: Fail(errno class, one matching one-line "
         "callback, no object / destination usable) or Ok(self-consistent: "
         "dimensions fit the type, ascending calibration frequencies, all "
         "cells readable, re-save + re-load gives the same content), no "
-        "hang (%d s alarm per input), nothing live or leaked after freeing. "
+        "hang (%d CPU-seconds watchdog per input), nothing live or leaked after freeing. "
         "evaluations = inputs; distinct_nontrivial = inputs with pairwise "
         "different outcome events that differ from their seed and are not "
         "empty.  Measured per parser (parts.by_parser): how many inputs "
@@ -59,14 +64,14 @@ def body(c):
         "formulations TLC compares on every line-class sequence up to the "
         "bound; states/transitions)." %
         ("of the first seed of every kind" if c.tier == "quick"
-         else "of every seed", stats["truncation_inputs"], stats["fuzz_inputs"], 20))
+         else "of every seed", stats["truncation_inputs"], stats["fuzz_inputs"], 10))
     c.cov["trusted_base"] = [
         "TLC 1.8", "LoadContract.tla (outcome contract from the property text, "
         "vnaerr(3), vnacal(3), vnadata(3))",
         "clang ASan/UBSan (memory safety, UB); in-library allocation count after every "
         "input; LeakSanitizer probe every 16 inputs, a window with a leak is re-run "
         "with a probe after every input",
-        "per-input alarm(20 s) for termination",
+        "per-input CPU-time watchdog (ITIMER_PROF, 10 CPU-seconds) for termination; wall-clock time is never judged",
         "harness observations: readable (no error callback from any getter), "
         "same content after re-save at 17 digits / VNACAL_MAX_PRECISION "
         "(relative 1e-9 of the largest cell per frequency for vnadata; byte "
